@@ -1,6 +1,6 @@
 (* CorrTags.v — correspondence glue for Model/Tags.v (streams S-tags, S-wheel). *)
 From Coq Require Import List Bool NArith.
-From Verif Require Import PyRes Str SpecTypes GenSpec Pep440 Platform Tags Corr.
+From Verif Require Import PyRes Str SpecTypes GenSpec Pep440 Platform Tags PlatParse Corr.
 Import ListNotations.
 
 Inductive tcase :=
@@ -8,6 +8,8 @@ Inductive tcase :=
 | TWheel (fn : str) (r : pyres (list str * list str * list str))
 | TAbiImpl (abi : str) (r : str)
 | TPyTag (timpl : str) (major : N) (minor : option N) (r : str)
+| TPlatParse (s : str) (r : pyres platform)
+| TPlatStr (p : platform) (r : str)
 | TCompare (rpA : pspec version) (pA : option platform) (iA : option (N * bool)) (rpB : pspec version) (pB : option platform) (iB : option (N * bool)) (r : N).
 
 Definition impl_of (x : N * bool) : implementation :=
@@ -39,6 +41,14 @@ Definition check_tcase (c : tcase) : bool :=
       end
   | TAbiImpl abi r => str_eqb (abi_impl_of abi) r
   | TPyTag timpl major minor r => str_eqb (pytag_str (mkPyTag timpl major minor)) r
+  | TPlatParse s r =>
+      match platform_parse s, r with
+      | Ret p, Ret q => platform_eqb p q
+      | Raise e, Raise e' => exn_eqb e e'
+      | NotImpl, NotImpl => true
+      | _, _ => false
+      end
+  | TPlatStr p r => str_eqb (platform_str p) r
   | TCompare rpA pA iA rpB pB iB r =>
       match compare (mkEnv rpA pA (option_map impl_of iA)) (mkEnv rpB pB (option_map impl_of iB)) with
       | Ret INCOMPATIBLE => N.eqb r 1
